@@ -3,6 +3,8 @@ import XV.Driver.Util
 import XV.Model.Unmarshal
 import XV.Spec.Marshal
 import XV.Spec.Magic
+import XV.Model.Header
+import XV.Gen.Layouts
 namespace XV.Driver
 open XV XV.Model.Unmarshal
 
@@ -56,6 +58,23 @@ def marshalDispatch (op : String) (args : List String) : Option String :=
         | .error e => match e with
           | .eof => "(err EOFError)" | .badData => "(err bad-marshal-data)" | .valueError => "(err ValueError)"
           | .outOfFuel => "(err OUT-OF-FUEL)")
+  | _, _ => none
+
+end XV.Driver
+
+namespace XV.Driver
+open XV XV.Model
+
+def headerTables : Model.Header.Tables := { tuples := Gen.implTuple, versions := Gen.versionsTbl, pypy3 := Gen.pypy3Magics }
+
+def headerDispatch (op : String) (args : List String) : Option String :=
+  match op, args with
+  | "x.header", [h, nm] => do
+      let data ← parseHex h
+      pure (match Model.Header.load headerTables data (nm == "1") with
+        | .ok v t m p s sip pos => s!"ok {showNats v} {showOpt toString t} {m} {p} {showOpt toString s} {showOpt toString sip} {pos}"
+        | .importError => "ImportError"
+        | .escaped c => s!"escaped:{c}")
   | _, _ => none
 
 end XV.Driver
